@@ -1,5 +1,6 @@
 import BHS.Props.C02
 import BHS.Props.SqlShape.Verify
+import BHS.Props.ConfirmationsGen
 open BHS.Props.C02
 #print axioms lcUnique_of_inv
 #print axioms verifyHash_some
@@ -22,3 +23,15 @@ open BHS.Props.C02
 #print axioms C02_answered_reachable
 #print axioms C02_tracks_reorg_on_reachable
 #print axioms BHS.Props.SqlShape.verify_statements
+#print axioms BHS.Props.ConfirmationsGen.getChainTipHeight_refines
+#print axioms BHS.Props.ConfirmationsGen.getMerkleRootConfirmation_refines
+#print axioms BHS.Props.ConfirmationsGen.HeadersDb_GetMerkleRootsConfirmations_refines
+#print axioms BHS.Props.ConfirmationsGen.ToMerkleRootConfirmation_refines
+#print axioms BHS.Props.ConfirmationsGen.ConvertToMerkleRootsConfirmations_refines
+#print axioms BHS.Props.ConfirmationsGen.confirmations_pointwise
+#print axioms BHS.Props.ConfirmationsGen.confirmations_pointwise_entries
+#print axioms BHS.Props.ConfirmationsGen.answer1_eq_verifyItem
+#print axioms BHS.Props.ConfirmationsGen.GetMerkleRootsConfirmations_refines
+#print axioms BHS.Props.ConfirmationsGen.C02_confirmed_generated
+#print axioms BHS.Props.ConfirmationsGen.C02_unable_generated
+#print axioms BHS.Props.ConfirmationsGen.C02_answered_generated_reachable
